@@ -92,10 +92,19 @@ func altsOf(n parsley.Node) []parsley.Node {
 	return []parsley.Node{n}
 }
 
+// shallow1: [kind, start, end] and, for a non-terminal with exactly one child, that child's shallow value as 4th element
+func shallow1(x parsley.Node) []interface{} {
+	r := []interface{}{nodeKind(x), int(x.Pos()), int(x.ReaderPos())}
+	if nt, ok := x.(parsley.NonTerminalNode); ok && len(nt.Children()) == 1 {
+		r = append(r, shallow1(nt.Children()[0]))
+	}
+	return r
+}
+
 func shallow(n parsley.Node) [][]interface{} {
 	res := [][]interface{}{}
 	for _, x := range altsOf(n) {
-		res = append(res, []interface{}{nodeKind(x), int(x.Pos()), int(x.ReaderPos())})
+		res = append(res, shallow1(x))
 	}
 	return res
 }
@@ -297,6 +306,10 @@ func build(G []gnode, t *tracer) []parsley.Parser {
 			p = parser.ReturnError(kids[0], parsley.NotFoundError(stripExpect(n.Name)))
 		case "pass":
 			p = kids[0]
+		case "single":
+			p = combinator.Single(kids[0])
+		case "suppress":
+			p = combinator.SuppressError(kids[0])
 		case "memo":
 			p = combinator.Memoize(kids[0])
 			base++
